@@ -96,7 +96,8 @@ def member_decls(relpath, cls):
 
 
 SIMPLE_T = {"RealMatrix": "Mat", "Matrix": "Mat", "ComplexMatrix": "Mat", "RealVector": "Scalar *", "Vector": "Scalar *", "Index": "Index", "int": "int", "bool": "_Bool", "Scalar": "Scalar", "RealScalar": "Scalar", "long": "long", "unsigned": "unsigned",
-            "std::size_t": "unsigned long", "size_t": "unsigned long"}
+            "std::size_t": "unsigned long", "size_t": "unsigned long", "SortRule": "SortRule", "CompInfo": "CompInfo", "BoolArray": "_Bool *", "RealArray": "Scalar *", "Array": "Scalar *",
+            "ComplexVector": "Complex *", "double": "double", "float": "float", "char": "char", "unsigned char": "unsigned char", "Complex": "Complex"}
 
 
 def check_members(report):
@@ -1121,7 +1122,7 @@ def f_ctor(gen, report, ordinal=0):
     fa_in = " ".join(fa.inits.split())
     fa_extra = fa_in[len("m_op(op), m_n(op.rows()), m_m(m), m_k(0)"):]
     if not fa_in.startswith("m_op(op), m_n(op.rows()), m_m(m), m_k(0)") or fa.body.strip() or \
-            not re.match(r"^(?:, (?:%s)\([\w.+-]*\))*$" % "|".join([n for _, n in EXTRA_FIELDS["Fac"]] or ["@"]), fa_extra):
+            not re.match(r"^(?:, (?:%s)\([\w.+-]*\))*$" % "|".join([n for _, n in EXTRA_FIELDS["Fac"]] + ["m_beta", "m_near_0", "m_eps"]), fa_extra):
         raise X.ExtractionBreak("Arnoldi constructor changed: %r" % fa.inits)
     # the initialiser list as statements (members are initialised in declaration order, which is this order)
     pre_body = (" S->m_op = op; S->m_n = op->n; S->m_nev = nev; S->m_ncv = (ncv > S->m_n ? S->m_n : ncv); S->m_nmatop = 0; S->m_niter = 0; "
@@ -1200,18 +1201,28 @@ def f_eigenvectors(gen, report):
     extra = accessor_rules(report) + [
         ("count", r"const Index nconv = S->m_ritz_conv\.(?:count\(\)|cast<Index>\(\)\.sum\(\));", "const Index nconv = S->cnt_conv;", {"max": 1}),
         ("res", r"(?:Complex)?Matrix res\(([^;]+)\);", r"Mat res = MAT_NEW(\1);", {"max": 1}),
-        ("conv", r"(?:Real|Complex)Matrix ritz_vec_conv\(([^;]+)\);", r"Mat ritz_vec_conv = MAT_NEW(\1);", {"max": 1}),
-        ("copy", r"ritz_vec_conv\.col\(j\)\.noalias\(\) = S->m_ritz_vec\.col\(i\);", "COLCOPY(ritz_vec_conv, j, S->m_ritz_vec, i); if (j == g_out) g_src = i;", {"max": 1}),
-        ("flag", r"if \(S->m_ritz_conv\[i\]\)", "COUNT_DEF(S, i); if (S->m_ritz_conv[i])", {"max": 1}),
-        ("product", r"res\.noalias\(\) = S->m_fac\.m_fac_V \* ritz_vec_conv;",
+        # the gather loop and its temporary may be absent (restructured accessor): the rules then do not fire, and the product rules below decide
+        ("conv", r"(?:Real|Complex)Matrix ritz_vec_conv\(([^;]+)\);", r"Mat ritz_vec_conv = MAT_NEW(\1);", {"min": 0, "max": 1}),
+        ("copy", r"ritz_vec_conv\.col\(j\)(?:\.noalias\(\))? = S->m_ritz_vec\.col\(i\);", "COLCOPY(ritz_vec_conv, j, S->m_ritz_vec, i); if (j == g_out) g_src = i;", {"min": 0, "max": 1}),
+        ("flag", r"if \(S->m_ritz_conv\[i\]\)", "COUNT_DEF(S, i); if (S->m_ritz_conv[i])", {"min": 0, "max": 1}),
+        ("product", r"res(?:\.noalias\(\))? = S->m_fac\.m_fac_V \* ritz_vec_conv;",
          "__CPROVER_assert(S->m_fac.m_fac_V.cols == ritz_vec_conv.rows && res.rows == S->m_fac.m_fac_V.rows && res.cols == ritz_vec_conv.cols, @Q@Eigen: product dimensions agree@Q@); "
-         "if (0 <= g_out && g_out < res.cols) res.coltag[g_out] = ritz_vec_conv.coltag[g_out];", {"max": 1})]
+         "if (0 <= g_out && g_out < res.cols) res.coltag[g_out] = ritz_vec_conv.coltag[g_out];", {"min": 0, "max": 1}),
+        # product with the LEADING columns of the Ritz-vector matrix: result column g is Ritz vector g (provenance recorded; the postcondition decides whether that is a flagged one)
+        ("product-leading", r"res(?:\.noalias\(\))? = S->m_fac\.m_fac_V \* S->m_ritz_vec\.leftCols\(([^;()]+)\);",
+         r"NCOLS_CHECK(S->m_ritz_vec, \1); __CPROVER_assert(S->m_fac.m_fac_V.cols == S->m_ritz_vec.rows && res.rows == S->m_fac.m_fac_V.rows && res.cols == (\1), @Q@Eigen: product dimensions agree@Q@); "
+         r"if (0 <= g_out && g_out < res.cols) { res.coltag[g_out] = S->m_ritz_vec.coltag[g_out]; g_src = g_out; }", {"min": 0, "max": 2})]
     inv = ("__CPROVER_assigns(i, j, g_src, __CPROVER_object_whole(ritz_vec_conv.coltag)) "
            "__CPROVER_loop_invariant(0 <= i && i <= S->m_nev && 0 <= j && j <= nvec && j <= g_prefix[i] && (j == g_prefix[i] || j == nvec)) "
            "__CPROVER_loop_invariant(!(0 <= g_out && g_out < j) || (0 <= g_src && g_src < i && S->m_ritz_conv[g_src] && g_prefix[g_src] == g_out && ritz_vec_conv.coltag[g_out] == S->m_ritz_vec.coltag[g_src])) "
            "__CPROVER_decreases(S->m_nev - i)")
-    t = emit_solver_fn(hdr, cls, "eigenvectors", "eigenvectors", report, ret_c="Mat", extra=extra, loops={0: inv},
+    f0 = X.locate(hdr, "eigenvectors", cls=cls, params_re=r"Index\s+nvec")
+    has_loop = len(re.findall(r"\bfor\s*\(", f0.body)) >= 1
+    t = emit_solver_fn(hdr, cls, "eigenvectors", "eigenvectors", report, ret_c="Mat", extra=extra, loops=({0: inv} if has_loop else {}),
                        contract=spec.frame_contract(), params_re=r"Index\s+nvec", pre_body=" COUNT_DEF(S, 0);")
+    fired = report["%s::eigenvectors" % cls]
+    if not (fired.get("x:product", 0) + fired.get("x:product-leading", 0) >= 1):
+        raise X.ExtractionBreak("%s::eigenvectors(nvec): no recognised product that forms the returned matrix" % cls)
     f = X.locate(hdr, "eigenvectors", cls=cls, params_re=r"^\s*$")
     if " ".join(f.body.split()) != "return eigenvectors(m_nev);":
         raise X.ExtractionBreak("%s::eigenvectors() no longer forwards eigenvectors(m_nev)" % cls)
